@@ -153,7 +153,29 @@ pub fn generate(rng: &mut Rng, max_ops: usize) -> Workload {
             }
             break;
         }
-        match rng.below(16) {
+        match rng.below(19) {
+            16 | 17 if b.as_ref().is_some_and(|bb| !bb.is_empty()) => {
+                // move an element out of `b` into `a` (the element changes container)
+                let bb = b.as_mut().unwrap();
+                let v = bb.pop().unwrap();
+                if len > 0 && rng.chance(1, 2) {
+                    let i = rng.below(len as u64) as usize;
+                    src.push_str(&format!("a[{i}] = b.pop()\n"));
+                    a[i] = v;
+                    descr.push(format!("move-set({i})"));
+                } else {
+                    src.push_str("a.push(b.pop())\n");
+                    a.push(v);
+                    descr.push("move-push".into());
+                }
+            }
+            18 if len > 0 && b.is_some() => {
+                // ... and the other way round
+                let v = a.pop().unwrap();
+                src.push_str("b.push(a.pop())\n");
+                b.as_mut().unwrap().push(v);
+                descr.push("move-push-back".into());
+            }
             0 => {
                 // literal
                 a = (0..rng.below(5)).map(|_| fresh(rng, kind, true)).collect();
